@@ -389,6 +389,11 @@ public:
                         default:
                             w.fault("ack_exact");
                         }
+                        if (h > (int)conn->sm->hIn) {
+                            // whatever the op was called, this acknowledges more than the server has received on this
+                            // session (e.g. "decreasing" relative to an ack of an earlier session): not an honest ack
+                            adversarial = true;
+                        }
                         lastAckSent = h;
                         conn->send(QByteArray("<a xmlns='urn:xmpp:sm:3' h='") + QByteArray::number(h) + "'/>");
                     }
